@@ -659,6 +659,23 @@ def gen_int_axis_contour(rng):
             "dl_form": "asis", "shape_kind": "int-axis"}
 
 
+def gen_history_contours(rng, max_cells):
+    """two or three contours in a row of one model object on one explicit grid (several return periods, also the same alpha
+    twice): returns one case per LATER contour, each with the earlier ones as its history"""
+    n = rng.choice([2, 2, 3])
+    desc = M.gen_model_desc(rng, n, multimodal=(n == 2 and rng.random() < 0.25))
+    model = M.build_model(desc)
+    alphas = [float(10 ** rng.uniform(-5, math.log10(0.3))) for _ in range(rng.choice([2, 3]))]
+    if rng.random() < 0.5:
+        alphas[-1] = alphas[0]                       # the same alpha again
+    g = M.gen_grid(rng, model, desc, max_cells, alpha=min(alphas), min_axis=8)
+    out = []
+    for k in range(1, len(alphas)):
+        out.append({"kind": "contour", "desc": desc, "alpha": alphas[k], "prior_alphas": alphas[:k], "limits": g["limits"], "deltas": g["deltas"],
+                    "lim_form": g["lim_form"], "dl_form": g["dl_form"], "shape_kind": "history"})
+    return out
+
+
 def l7_case():
     """the anisotropic grid of lead L7 on the sea state model of the test-suite (scaled down)"""
     desc = {"dims": [{"family": "weibull", "params": {"alpha": 2.776, "beta": 1.471, "gamma": 0.8888}},
@@ -671,6 +688,17 @@ def run_contour(c):
     model = M.build_model(c["desc"])
     if c.get("np_seed") is not None:
         np.random.seed(c["np_seed"])
+    if c.get("prior_alphas"):
+        # history: earlier contours of the SAME model object on the same explicit limits and deltas
+        import virocon as vc
+        lim, dl = M.apply_forms(c["limits"], c["deltas"], c.get("lim_form", "tuples"), c.get("dl_form", "asis"))
+        with warnings.catch_warnings():
+            warnings.simplefilter("ignore")
+            for a in c["prior_alphas"]:
+                try:
+                    vc.HighestDensityContour(model, a, lim, dl)
+                except Exception:  # noqa
+                    pass
     out = M.run_hdc(model, c["alpha"], c["limits"], c["deltas"], c.get("lim_form", "tuples"), c.get("dl_form", "asis"))
     out["model"] = model
     return out
@@ -723,9 +751,11 @@ def coords_as_sets(cont, n_dim):
 
 
 def truth_region(c, out):
-    """the enclosed region determined independently of what _compute hands to scipy: the cells whose density (product of CDF
-    differences / cell volume, recomputed from the model's cdfs) is at least the reported fm.  Only for cells that tie
-    with fm (relative 1e-9) the recorded array is consulted.  Returns (region, n_cells_that_differ_from_the_recorded_array)."""
+    """the enclosed region determined independently of _compute: cell probabilities recomputed from the model's cdfs
+    (products of CDF differences), cells taken in descending order while the cumulative sum stays <= 1 - alpha (the whole grid
+    if the grid holds less than 1 - alpha).  Neither the array handed to scipy nor the reported fm / warning is trusted; the
+    recorded array is consulted only for cells whose membership is numerically ambiguous (ties with the threshold cell,
+    cumulative sum within 1e-11 of 1 - alpha).  Returns (region, n_cells_that_differ_from_the_recorded_array)."""
     from harness import c02 as C02
     cont = out["contour"]
     rec = np.asarray(out["erosions"][0][0]) != 0
@@ -737,11 +767,27 @@ def truth_region(c, out):
         P, N = C02.independent_cell_probabilities(out["model"], c["desc"], coords, deltas)
     if np.isnan(P).any() or P.shape != rec.shape:
         return rec, 0
-    f = P / float(np.prod(deltas))
-    fm = float(cont.fm)
-    rt = 1e-9 + 8 * np.where(np.isfinite(N), N, 1.0)
-    tie = np.abs(f - fm) <= rt * max(abs(fm), 1e-300)
-    region = np.where(tie, rec, f >= fm)
+    lim = 1 - float(c["alpha"])
+    tot = float(P.sum())
+    if abs(tot - lim) <= 1e-10:
+        return rec, 0                                   # unjudgeable: the grid holds 1 - alpha up to rounding
+    if tot < lim:
+        region = np.ones(P.shape, dtype=bool)           # RuntimeWarning case: the whole grid
+        return region, int((region != rec).sum())
+    flat = P.ravel()
+    order = np.argsort(-flat, kind="stable")
+    cs = np.cumsum(flat[order])
+    k = int(np.searchsorted(cs, lim, side="right"))     # number of cells with cumulative sum <= lim
+    if k == 0:
+        return rec, 0
+    pm = float(flat[order[k - 1]])
+    sel = np.zeros(flat.shape, dtype=bool)
+    sel[order[:k]] = True
+    noise = 1e-9 + 8 * np.where(np.isfinite(N), N, 1.0).ravel()
+    amb = np.abs(flat - pm) <= noise * max(pm, 1e-300)  # ties with the threshold cell
+    near = np.abs(cs - lim) <= 1e-11                     # the cut itself is within rounding
+    amb[order[near]] = True
+    region = np.where(amb, rec.ravel(), sel).reshape(P.shape)
     return region, int((region != rec).sum())
 
 
@@ -941,7 +987,7 @@ def run(ctx):
         items.append(("mask_%d" % (s // bshard), body))
     n_sb = len(items)
     # ---------------- C: contours
-    n_c = ctx.n(40, 300)
+    n_c = ctx.n(30, 300)
     max_cells = ctx.n(900, 2000)
     cases_c = [l7_case()]
     # several regions whose bounding boxes overlap (every run): table models 2-D / 3-D, mixture ridges 2-D / 3-D
@@ -961,6 +1007,8 @@ def run(ctx):
         cases_c.append(gen_special_contour(rng, what, max_cells))
     for i in range(ctx.n(4, 30)):
         cases_c.append(gen_int_axis_contour(rng))
+    for i in range(ctx.n(3, 20)):
+        cases_c.extend(gen_history_contours(rng, max_cells))
     for i in range(n_c):
         cases_c.append(gen_contour_case(rng, max_cells, multimodal=(i % 6 == 5)))
     outs_c = [run_contour(c) for c in cases_c]
@@ -979,6 +1027,8 @@ def run(ctx):
                 pass
         else:
             key = "contour/%dd/err:%s" % (n, o["err"])
+        if c.get("prior_alphas"):
+            key += "/history%d" % len(c["prior_alphas"])
         if label_bboxes_overlap(o):
             key += "/overlapping-bboxes"
             n_overlap += 1
